@@ -47,9 +47,17 @@ def entry(typ: int, flags: int, ptbl: int, poff: int, key: bytes, value: bytes, 
     return struct.pack("<HIHIIIB", typ | (flags << 8), size, ptbl, poff, 0, seq, len(k)) + body
 
 
-def free_entry(space: int) -> bytes:
+def free_entry(space: int, rng=None) -> bytes:
+    """A free entry is defined by its type and size alone. With `rng`, most of them look like entries released in place:
+    left-over parent reference (to a table/offset that may no longer exist), sequence number, key length and body."""
     size = 21 + space
-    return struct.pack("<HIHIIIB", T_FREE, size, 0, 0, 0, 0, 0) + b"\xCC" * space
+    if rng is None or rng.random() < 0.35:
+        return struct.pack("<HIHIIIB", T_FREE, size, 0, 0, 0, 0, 0) + b"\xCC" * space
+    ptbl = rng.choice([0, 1, 2, 3, 9, 200, 0xFFFF])
+    poff = rng.choice([0, 8, 21, rng.getrandbits(12), rng.getrandbits(32)])
+    klen = rng.choice([0, 1, min(space, 255), rng.randrange(256)])
+    body = bytes(rng.getrandbits(8) for _ in range(min(space, 64))).ljust(space, b"\xFD")
+    return struct.pack("<HIHIIIB", T_FREE | (rng.choice([0, 1, 0x80]) << 8), size, ptbl, poff, rng.choice([0, rng.getrandbits(32)]), rng.getrandbits(32), klen) + body
 
 
 def encode_value(v: Val):
@@ -165,7 +173,7 @@ def build(rng, tree: dict, *, ntables: int = 1, seqs=(3, 7), stale_tables: int =
         blob = bytearray(struct.pack("<HHHI", SIG_KEYTABLE, idx, seq_no, 0))
         for kind, it in items:
             if kind == "free":
-                blob += free_entry(it)
+                blob += free_entry(it, rng)
                 continue
             me = it
             par = me["parent"]
